@@ -241,3 +241,8 @@ def run(P: Program, R: Report, tier: str) -> None:
         callers_container(P, R, "R19.5", only_seg=True)
     else:
         R.undecided("R19.4", g, g.node, "the relabeller finds a node's frame through its time attribute", "read of the time attribute not recognised")
+    # ---- R19.6 (= R18.8) building the candidate graph (and its IoU pass) only reads the caller's label array: the relabeller is
+    # later handed the same array and looks the solution's seg ids up in it
+    from .c18 import callers_container_untouched
+
+    callers_container_untouched(P, R, "R19.6")
